@@ -32,6 +32,7 @@ META = {
 CTX = "liquid2.context.RenderContext"
 
 
+from checks.shared import check_buffer_factories_fresh  # noqa: E402
 from checks.shared import check_newline_transparency  # noqa: E402
 
 
@@ -108,6 +109,7 @@ def run(prog: Program, res: Result) -> None:  # noqa: PLR0912, PLR0915
                 res.ok("C06.R1", site, what, f"limit={txt}")
             else:
                 res.fail("C06.R1", file=rel, line=c.lineno, qualname=q, construct=c, message="limited buffer not created with (env.output_stream_limit - bytes already written to the parent)", what=what)
+    check_buffer_factories_fresh(prog, res, "C06.R1")
     # call sites of get_output_buffer pass the enclosing buffer
     n_gob = 0
     for mod in prog.modules.values():
